@@ -21,6 +21,7 @@ Definition m_of_z (z : Z) : option N := f_of_Z z.
 Definition m_trunc (x : N) : Z := f_trunc x.
 (* which variant the template in /repo is, according to the scanner *)
 Definition m_quirk : bool := arrelem_quirk_gen.
+Definition m_precheck : bool := t_arr_precheck tmpl_gen.
 
-Extraction "model.ml" m_trace m_default m_roundtrip m_wf m_db_ok m_round m_of_z m_trunc m_quirk pick_width_gen
+Extraction "model.ml" m_trace m_default m_roundtrip m_wf m_db_ok m_round m_of_z m_trunc m_quirk m_precheck pick_width_gen
   Z.add Z.mul Z.opp Z.div_eucl Z.ltb Z.eqb N.add N.mul N.div_eucl N.eqb.
